@@ -31,6 +31,11 @@ def types_for(tier):
     # static extents of ONE (an axis that is only ever indexed with 0) next to dynamic ones, in every position
     ts = ts + [xt.Arr(xt.Sc("f64"), (1, None, 3)), xt.Arr(xt.Sc("i16"), (None, 1, 2)), xt.Arr(xt.Sc("f32"), (1, None)), xt.Arr(xt.STR, (1, None, 2)),
                xt.St(xt.Sc("i8"), xt.Arr(xt.Sc("i64"), (1, 1, None)), xt.Sc("f64")), xt.Arr(xt.Sc("u8"), (1, None, 2), (1, 2, 0))]
+    # three and four dynamic fields with static fields declared BETWEEN them (the offset slots are adjacent in memory, the field
+    # numbers of the dynamic fields are not consecutive)
+    D1 = xt.Arr(xt.Sc("f64"), (None,))
+    ts = ts + [xt.St(D1, D1, xt.Sc("i64"), D1, xt.STR), xt.St(xt.Sc("i8"), xt.STR, xt.Sc("f32"), D1, xt.Sc("i16"), xt.STR, D1),
+               xt.Arr(xt.St(xt.STR, xt.STR, xt.Sc("i64"), xt.STR), (2,))]
     # a static extent of ZERO next to a dynamic one
     ts = ts + [xt.Arr(xt.Sc("f64"), (0, None)), xt.Arr(xt.Sc("i16"), (None, 0)), xt.St(xt.Sc("i8"), xt.Arr(xt.Sc("f32"), (0, None)), xt.Sc("i64"))]
     out, seen = [], set()
@@ -129,17 +134,18 @@ def check_object(t, v, obj, ctx, res, vmode):
     calls = list(cseam.calls_for_object(t, v, obj))
     # what Python reports is asked of the constructor's handle for the even calls and of a view rebuilt from (buffer,
     # offset) for the odd ones: both are "the Python accessors" of the property
-    vcalls = None
+    vby = {}
     if t[0] != "U":
+        # (the walk through the view is kept as far as it gets: a view that raises somewhere is C06's business, what it
+        # reported before that is still compared with C)
         try:
-            vcalls = list(cseam.calls_for_object(t, v, cls._from_buffer(obj._buffer, obj._offset)))
-            if [(c["kern"].c_name, c["idx"]) for c in vcalls] != [(c["kern"].c_name, c["idx"]) for c in calls]:
-                res.skipped["view-walk-differs(C06's business)"] += 1
-                vcalls = None
+            for c in cseam.calls_for_object(t, v, cls._from_buffer(obj._buffer, obj._offset)):
+                vby[(c["kern"].c_name, tuple(c["idx"]))] = c
         except Exception as e:
             res.skipped["view-walk(C06's business):" + common.exc_failure(e)] += 1
     for ci, c in enumerate(calls):
-        one_call(ci, vcalls[ci] if (vcalls and ci % 2) else c, len(calls))
+        vc = vby.get((c["kern"].c_name, tuple(c["idx"]))) if ci % 2 else None
+        one_call(ci, vc if vc is not None else c, len(calls))
     # second series: every reference field of a struct is REBOUND through another Python object for the same bytes (a view
     # rebuilt from the buffer); what the original handle reports afterwards is compared with C again
     rebinds = [(n, ft) for n, ft in t[1] if ft[0] in ("R", "U")] if t[0] == "St" else []
